@@ -5,6 +5,12 @@ CHECKS = {
          "deterministic simulation (virtual-time multi-station ether, seeded plans, fault injection: drop/dup/delay/partition/restart/send errors) + history oracle"),
  "C02": ("net", "5", "Every frame handed to LinkLayer.send in seeded multi-station runs (originated beacon/SHB/GBC/GAC/GUC/LS and forwarded copies) is compared octet for octet with an independent reference encoding; every delivered conformant frame (including reference-peer injections with boundary-biased field values) is decoded by the repo's decoders and compared field by field. Field spaces are sampled, not swept.",
          "deterministic simulation (multi-station ether, reference peer injecting conformant packets) + ether conformance monitor against an independent reference codec"),
+ "C06": ("net", "5", "Line / ring / mesh topologies of 3-6 real stations plus a reference peer injecting TSB/GBC/GAC/GUC/LS packets with arbitrary RHL, exact duplicates and replays; every reception is classified by a reference duplicate packet list and the station's deliveries and transmissions are judged (at most once, never own address, forwarded copy = received with RHL-1, none for RHL 0/1, CBF copy dropped on duplicate, floods terminate).",
+         "deterministic simulation (multi-hop ether, seeded duplication/replay/reorder/restart faults, virtual CBF timers) + reference DPL model and forwarding-equality monitor"),
+ "C07": ("net", "5", "One sender and 3-8 real receivers placed inside / outside / near the border of circles, rectangles and ellipses anywhere on the globe (incl. rotation and the antimeridian); delivery is compared with an independent EN 302 931 oracle (two projections, tolerance band), oversize areas must be refused and the observable part of the Annex D choice is checked against the reference.",
+         "deterministic simulation (star topology ether, harness-placed receivers, reference-peer packets with position-accuracy flag) + independent geometry oracle"),
+ "C08": ("net", "5", "A real router with a skewed clock receives seeded histories of all packet types from phantom sources with timestamps behind / equal / ahead of its clock, across the 2^32 ms wrap and across virtual gaps of several LocTE lifetimes; after every processed packet the table is compared with a reference location table; TST order laws are checked on boundary-biased pairs.",
+         "deterministic simulation (virtual clock with per-station skew, wrap-around epoch, reference-peer histories) + lock-step reference location table"),
  "C19": ("dcc", "5", "Seeded timed histories (CBR samples, packet offers, delta updates on a virtual clock) drive the real DccReactive/DccAdaptive/GateKeeper step by step against an independent reference of TS 102 687 Annex A, clause 5.4 and equations B.1/B.2.",
          "deterministic simulation (virtual clock, seeded channel-load and packet-arrival processes) + lock-step reference model"),
  "C20": ("net", "5", "Originated frames of every transport type with boundary-biased requested lifetimes / hop limits are judged on the wire (LT value <= request, largest representable, non-zero from 50 ms, RHL/MHL rules); injected packets with all 256 LT codes and RHL > MHL are judged at the receiver (remaining lifetime, decode, discard). The requested-lifetime space is sampled with measured reach, not exhaustively swept.",
